@@ -303,7 +303,7 @@ def classify_known(rec, cx, syms_by_path, findings):
         for kf in findings:
             if kf.get("status", "open") != "open":
                 continue
-            if kf["obligation"] != o["name"]:
+            if o["name"] not in kf.get("obligations", [kf.get("obligation")]):
                 continue
             ob = live[(o["name"], o["path"])]
             syms = syms_by_path.get(o["path"], {})
